@@ -254,6 +254,45 @@ func runGroup(c *mon.Ctx, g *groups.Group) {
 			}
 		}
 	}
+	// large batches: the window size of the fixed-base table grows with the batch length (cost model over c = 2..16);
+	// one batch per length just above the lengths where the model switches, scalars cycling through the class list
+	// so that every expected value is already known from the oracle
+	if g.BatchScalarMul != nil {
+		large := []int{300, 1000, 3000, 10000, 25000}
+		if c.Thorough() {
+			large = append(large, 70000, 200000)
+		}
+		for _, n := range large {
+			svals := make([]*big.Int, n)
+			idx := make([]int, n)
+			off := rng.Intn(len(S))
+			for i := range svals {
+				idx[i] = (i + off) % len(S)
+				svals[i] = new(big.Int).Mod(S[idx[i]].v, g.R)
+			}
+			base := g.Rep(pts[0].p, "aff", f.One())
+			var out []groups.Rep
+			key := N + "/BatchScalarMultiplication"
+			if c.Guard(fmt.Sprintf("%s/panic/n=%d", key, n), func() string { return fmt.Sprintf("n=%d large", n) }, func() { out = g.BatchScalarMul(base, svals) }) {
+				continue
+			}
+			if !c.Check("BatchScalarMultiplication", key+"/length", len(out) == n, func() string { return fmt.Sprintf("n=%d got %d", n, len(out)) }) {
+				continue
+			}
+			bad := 0
+			for i := range out {
+				got := g.Pt(out[i])
+				if !c.Check("BatchScalarMultiplication", fmt.Sprintf("%s/mismatch/n=%d/%s", key, n, S[idx[i]].cls), C.Eq(got, exp[0][idx[i]]), func() string {
+					return fmt.Sprintf("BatchScalarMultiplication(%s, n=%d) entry %d scalar %s [%s] = %s, oracle %s", pts[0].cls, n, i, svals[i], S[idx[i]].cls, C.String(got), C.String(exp[0][idx[i]]))
+				}) {
+					if bad++; bad > 20 {
+						break
+					}
+				}
+			}
+			c.Class(fmt.Sprintf("%s/n%d/large", key, n))
+		}
+	}
 	c.SampleOnce(N, map[string]any{"group": N, "scalar_classes": len(S), "example_scalar": S[len(S)/2].v.String(), "class": S[len(S)/2].cls})
 }
 
